@@ -154,7 +154,7 @@ impl Scenario for CallHistory {
         "gibbs_call_history"
     }
     fn runs(&self, tier: Tier) -> u64 {
-        tier.pick(60_000, 400_000)
+        tier.pick(60_000, 2_000_000)
     }
     fn generate(&self, g: &mut Gen, _t: Tier, _i: u64) -> Value {
         let cs = crate::props::c07::special_seed(g, 4);
@@ -207,7 +207,7 @@ impl Scenario for Invariance {
         "gibbs_exact_invariance"
     }
     fn runs(&self, tier: Tier) -> u64 {
-        tier.pick(2000, 20_000)
+        tier.pick(2000, 100_000)
     }
     fn generate(&self, g: &mut Gen, _t: Tier, _i: u64) -> Value {
         json!({"d": g.usize(1, 4), "gseed": g.u64()})
@@ -319,7 +319,7 @@ impl Scenario for SamplerHistory {
         "gibbs_sampler_run"
     }
     fn runs(&self, tier: Tier) -> u64 {
-        tier.pick(4000, 40_000)
+        tier.pick(4000, 200_000)
     }
     fn generate(&self, g: &mut Gen, _t: Tier, _i: u64) -> Value {
         let nc = g.usize(1, 16);
@@ -437,7 +437,7 @@ impl Scenario for PanicFault {
         "gibbs_conditional_panics"
     }
     fn runs(&self, tier: Tier) -> u64 {
-        tier.pick(15_000, 100_000)
+        tier.pick(15_000, 500_000)
     }
     fn generate(&self, g: &mut Gen, _t: Tier, _i: u64) -> Value {
         let d = g.usize(1, 16);
